@@ -24,44 +24,53 @@ func checkDefaultIdentity(c *Check) {
 	if hc == nil {
 		c.Undecided(rule, "container.handleConf", "-", "function not found")
 	} else {
-		cd := controlDeps(hc)
+		// the handler itself, or a helper of the package it hands the configuration to
+		scope := []*ssa.Function{hc}
+		for _, ci := range callInstrs(hc) {
+			if _, callee := calleeOf(ci); callee != nil && callee.Pkg == hc.Pkg && len(callee.Blocks) > 0 && callee != hc {
+				scope = append(scope, callee)
+			}
+		}
 		for _, f := range fields {
 			n := 0
-			for _, b := range hc.Blocks {
-				for _, in := range b.Instrs {
-					st, ok := in.(*ssa.Store)
-					if !ok {
-						continue
-					}
-					fa, ok := st.Addr.(*ssa.FieldAddr)
-					if !ok || fieldName(fa.X.Type(), fa.Field) != f {
-						continue
-					}
-					v, isC := constInt(st.Val)
-					if !isC {
-						continue
-					}
-					n++
-					initDefault[f] = v
-					g := cd.guardOf(b)
-					own, foreign := "", ""
-					for _, a := range Support(g) {
-						for _, f2 := range fields {
-							if strings.Contains(a, "."+f2+" ") || strings.HasSuffix(a, "."+f2) {
-								if f2 == f {
-									own = a
-								} else {
-									foreign = a
+			for _, sf := range scope {
+				cd := controlDeps(sf)
+				for _, b := range sf.Blocks {
+					for _, in := range b.Instrs {
+						st, ok := in.(*ssa.Store)
+						if !ok {
+							continue
+						}
+						fa, ok := st.Addr.(*ssa.FieldAddr)
+						if !ok || fieldName(fa.X.Type(), fa.Field) != f {
+							continue
+						}
+						v, isC := constInt(st.Val)
+						if !isC {
+							continue
+						}
+						n++
+						initDefault[f] = v
+						g := cd.guardOf(b)
+						own, foreign := "", ""
+						for _, a := range Support(g) {
+							for _, f2 := range fields {
+								if strings.Contains(a, "."+f2+" ") || strings.HasSuffix(a, "."+f2) {
+									if f2 == f {
+										own = a
+									} else {
+										foreign = a
+									}
 								}
 							}
 						}
+						okG := own != "" && foreign == "" && strings.HasSuffix(own, " == 0")
+						if okG {
+							okG, _, _ = Valid(fImp(g, fLit(own)))
+						}
+						c.Cond(okG, rule, "container.handleConf:default("+f+")", p.Pos(st.Pos()), "the default "+f+" is applied exactly when "+f+" is unset",
+							fmt.Sprintf("the default %s (%d) is stored under %s — not under \"%s == 0\" alone: host and init disagree about the identity for some configuration", f, v, g.String(), f))
 					}
-					okG := own != "" && foreign == "" && strings.HasSuffix(own, " == 0")
-					if okG {
-						okG, _, _ = Valid(fImp(g, fLit(own)))
-					}
-					c.Cond(okG, rule, "container.handleConf:default("+f+")", p.Pos(st.Pos()), "the default "+f+" is applied exactly when "+f+" is unset",
-						fmt.Sprintf("the default %s (%d) is stored under %s — not under \"%s == 0\" alone: host and init disagree about the identity for some configuration", f, v, g.String(), f))
 				}
 			}
 			if n != 1 {
